@@ -617,6 +617,11 @@ def shape_catalogue():
              [[("if", [(False, [_c(11)], [("jump", "xe")])], None), _u(4), ("ctrl", "end")]])
         prog(f"cross_into_case_block_{tname}", [("switch", sw, [(case(1), [("label", "xc"), _u(1), ("ctrl", "break")]), (case(2), [_u(2)])]), _u(3)] + tail,
              [[_u(4), ("if", [(False, [_c(11)], [("jump", "xc")])], None), _u(5), ("ctrl", "end")]])
+        # a label that is only reached from another routine, behind a flow-ending op and in front of a jump to the routine's end
+        prog(f"cross_to_label_before_break_loop_{tname}", [("forever", [_u(1), ("ctrl", "return"), ("label", "xt"), ("ctrl", "break_loop")])] + tail, [[_u(2), ("jump", "xt")]])
+        prog(f"cross_to_label_before_jump_to_end_{tname}", [_u(1), ("ctrl", "return"), ("label", "xj"), ("jump", "ej")] + tail + [("label", "ej")], [[_u(2), ("jump", "xj")]])
+        prog(f"cross_call_to_label_before_jump_to_end_{tname}", [_u(1), ("ctrl", "end"), ("label", "xk"), ("jump", "ek")] + tail + [("label", "ek")], [[_u(2), ("call", "xk"), _u(3)]])
+        prog(f"cross_to_label_in_last_if_{tname}", [("if", [(False, [_c(10)], [_u(1), ("ctrl", "end"), ("label", "xi")])], None)] + tail, [[_u(2), ("jump", "xi")]])
         prog(f"while_continue_if_break_{tname}", [("while", False, _c(10), [("if", [(False, [_c(11)], [("ctrl", "continue")])], None), _u(1),
                                                                                ("if", [(False, [_c(12)], [_u(2)])], None), ("ctrl", "break_loop")]), _u(3)] + tail)
         prog(f"with_{tname}", [("with", "actor", ("int", 3), _u(1)), ("with", "object", ("const", "OBJ"), ("asg", ("flag_Set", (("const", "$A"), ("int", 2))))), ("with", "performer", ("int", 0), ("ctrl", "end")), ("op", "op_7", [("int", 7)], ("actor", ("const", "ACTOR_X"))), _u(3)] + tail)
